@@ -51,5 +51,4 @@ Definition holds_obs (c : case) : bool :=
 
 Definition judge (c : case) : verdict :=
   if result_matches c (spec_decide (inp c)) then (if holds_obs c then VOk else VViolation)
-  else if trigger1 (inp c) && result_matches c (impl_decide (inp c)) then VKnown 1
   else if holds_obs c then VMismatch else VViolation.
